@@ -997,6 +997,10 @@ impl Prop for C07Prop {
         for (name, _, _) in PROBES.iter() {
             out.push(Case { req: format!("c07 child {}", name), in_domain: true, nontrivial: true, tags: vec!["child-probe"] });
         }
+        // the recorded shift finding (and its in-range neighbours, which must simply work)
+        for sc in ["x = calc shl(1, 70)", "x = calc shr(1, 64)", "calc shl(1, -1)", "x = calc shl(1, 63)", "x = calc shr(-8, 2)", "x = calc shl(1, 0)"] {
+            out.push(lib_case(sc, &[], vec!["library-level", "calc-shift"]));
+        }
         // regression corpus: the five repaired panics must stay repaired
         let regress = [
             "scope_push_stack --copy nope",
@@ -1212,6 +1216,28 @@ impl Prop for C07Prop {
     }
     fn known(&self, req: &str, _model: &str, imp: &str) -> Option<String> {
         let toks: Vec<&str> = req.split(' ').collect();
+        if let ["c07", "lib", sc, _] = toks.as_slice() {
+            // `calc shl(a, n)` / `shr(a, n)` with n outside 0..=63: the evalexpr crate shifts without a
+            // range check, which panics in builds with overflow checks (this harness has them on)
+            if imp == "PANIC" {
+                if let Some(script) = dec_str(sc) {
+                    let t = script.trim();
+                    let one_line = !t.contains('\n');
+                    let expr = t.splitn(2, "calc ").nth(1).unwrap_or("");
+                    let head_ok = t.starts_with("calc ") || (t.contains(" = calc ") && !t[..t.find(" = calc ").unwrap()].contains(' '));
+                    let amount_bad = ["shl(", "shr("].iter().any(|f| expr.find(f).map(|i| {
+                        let inner = &expr[i + 4..];
+                        match (inner.find(','), inner.find(')')) {
+                            (Some(c), Some(e)) if c < e => inner[c + 1..e].trim().parse::<i64>().map(|n| !(0..=63).contains(&n)).unwrap_or(false),
+                            _ => false,
+                        }
+                    }).unwrap_or(false));
+                    if one_line && head_ok && amount_bad {
+                        return Some("C07/calc-shift-overflow-in-checked-builds".to_string());
+                    }
+                }
+            }
+        }
         if let ["c07", "child", name] = toks.as_slice() {
             // the recorded classes, each with the observation it is recorded with
             let expect = match *name {
